@@ -467,6 +467,12 @@ where
                     } else {
                         STATE_LIMIT_MAX
                     };
+                    #[cfg(feature = "verif")]
+                    crate::verif::push(crate::verif::Entry::Limit {
+                        mi,
+                        value: self.runtime[mi].state_limit,
+                        decrement: false,
+                    });
                 }
 
                 // update the counter, possible recursion: we need to update the
@@ -554,6 +560,15 @@ where
             }
         }
 
+        #[cfg(feature = "verif")]
+        crate::verif::push(crate::verif::Entry::Counter {
+            mi,
+            a_old: old_value_a,
+            a_new: self.runtime[mi].counter_a,
+            b_old: old_value_b,
+            b_new: self.runtime[mi].counter_b,
+        });
+
         if any_counter_zeroed {
             let state_changed = self.transition(mi, Event::CounterZero);
             return (
@@ -607,6 +622,12 @@ where
         if self.runtime[mi].state_limit > 0 {
             self.runtime[mi].state_limit -= 1;
         }
+        #[cfg(feature = "verif")]
+        crate::verif::push(crate::verif::Entry::Limit {
+            mi,
+            value: self.runtime[mi].state_limit,
+            decrement: true,
+        });
         let cs = self.runtime[mi].current_state;
 
         if let Some(action) = self.machines.as_ref()[mi].states[cs].action {
